@@ -1,27 +1,34 @@
 #!/usr/bin/env python3
-"""Run the checks against a seeded change: seedrun.py <seed dir with patch.diff> <out.json> [tier]
-Applies the patch to a scratch worktree copy (VERIF_REPO), runs `./check ALL --touch <files>`, records
-which obligations failed."""
+"""Run the registered checks against a seeded change, the way they will be used:
+   seedrun.py <seed dir with patch.diff> <out.json> [props=<P1,P2>|touch] [tier]
+Copies /repo, applies the patch there (VERIF_REPO), runs `./check <P> --tier quick --no-evidence` for each
+property (default: the property named in meta.json), records exit codes and the violated obligations.
+`touch`: `./check ALL --touch <files>` (fast, but blind to obligations anchored in other files)."""
 import json, os, re, subprocess, sys, shutil, time
 seed, out = sys.argv[1], sys.argv[2]
-tier = sys.argv[3] if len(sys.argv) > 3 else "quick"
+mode = sys.argv[3] if len(sys.argv) > 3 else None
+tier = sys.argv[4] if len(sys.argv) > 4 else "quick"
 patch = os.path.join(seed, "patch.diff")
 files = sorted(set(re.findall(r"^\+\+\+ b/(\S+)", open(patch).read(), re.M)))
+meta = json.load(open(os.path.join(seed, "meta.json"))) if os.path.exists(os.path.join(seed, "meta.json")) else {}
+props = [meta.get("property")] if not mode else (None if mode == "touch" else mode.replace("props=", "").split(","))
 wt = "/var/tmp/seedrun.%d" % os.getpid()
 subprocess.check_call(["rsync", "-a", "--exclude", "/target", "--exclude", ".git", "/repo/", wt + "/"])
-subprocess.check_call(["git", "init", "-q"], cwd=wt)
-rc = subprocess.call(["git", "apply", os.path.abspath(patch)], cwd=wt)
-res = {"seed": seed, "files": files, "patch_applies": rc == 0}
+rc = subprocess.call(["git", "apply", "--unsafe-paths", "--directory", wt, os.path.abspath(patch)], cwd="/")
+if rc != 0:
+  rc = subprocess.call(["patch", "-p1", "-s", "-i", os.path.abspath(patch)], cwd=wt)
+res = {"seed": seed, "files": files, "patch_applies": rc == 0, "runs": []}
 if rc == 0:
   env = dict(os.environ, VERIF_REPO=wt, VERIF_NO_PLAYBACK="1", VERIF_SCRATCH="/var/tmp/fibre-verif.seed%d" % os.getpid())
-  t0 = time.time()
-  p = subprocess.run(["./check", "ALL", "--touch", ",".join(files), "--tier", tier, "--no-evidence"], cwd="/verif", env=env, stdout=subprocess.PIPE, stderr=subprocess.PIPE, text=True)
-  res["exit"] = p.returncode
-  res["wall_s"] = round(time.time() - t0)
-  res["violations"] = re.findall(r"VIOLATION property=ALL replay=\S+ obligation=(\S+)", p.stdout)
-  res["stdout_tail"] = p.stdout[-1500:]
-  res["stderr_tail"] = p.stderr[-1500:]
-  res["detected"] = p.returncode == 1 and bool(res["violations"])
+  cmds = [["./check", "ALL", "--touch", ",".join(files), "--tier", tier, "--no-evidence"]] if props is None else [["./check", p, "--tier", tier, "--no-evidence"] for p in props]
+  for cmd in cmds:
+    t0 = time.time()
+    p = subprocess.run(cmd, cwd="/verif", env=env, stdout=subprocess.PIPE, stderr=subprocess.PIPE, text=True)
+    res["runs"].append({"cmd": " ".join(cmd), "exit": p.returncode, "wall_s": round(time.time() - t0),
+                        "violations": re.findall(r"VIOLATION property=\S+ replay=\S+ obligation=(\S+)", p.stdout),
+                        "stdout_tail": p.stdout[-1500:], "stderr_tail": p.stderr[-1500:]})
+  res["detected"] = any(r["exit"] == 1 and r["violations"] for r in res["runs"])
+  res["violations"] = sorted(set(v for r in res["runs"] for v in r["violations"]))
 shutil.rmtree(wt, ignore_errors=True)
 json.dump(res, open(out, "w"), indent=1)
-print(seed, "exit", res.get("exit"), "violations:", res.get("violations"))
+print(seed, "exits", [r["exit"] for r in res["runs"]], "violations:", res.get("violations"))
